@@ -172,11 +172,34 @@ pub fn def(ctx: &Ctx) -> PropertyDef {
             scenarios.push(seq_scenario(move |c| chained_spec(c, shards, which), &name));
         }
     }
+    // the sweeper at work while the deadline is moved / read: the C03 history oracle on key 1 (latest acknowledged
+    // value and deadline) decides "hidden before its expiry"
+    {
+        use crate::harness::ilv::Program;
+        let ups = |value: bool, w: Option<i64>, ttl: Option<u64>, rm: bool| Op::Upsert { k: 1, value, w, ttl_ms: ttl, remove_ttl: rm };
+        let mk = |name: &str, init: Vec<Op>, threads: Vec<Vec<Op>>| {
+            let mut p = Program::new(name);
+            p.setup = Setup { weight: 1000, ..Setup::default() };
+            p.init = init;
+            p.threads = threads;
+            p.post = vec![get(1)];
+            p
+        };
+        let programs = vec![
+            mk("ilv: k:upsert(ttl+50s);await;get || {clock+7s;tick}", vec![put_ttl(1, 30, 5000)], vec![vec![ups(true, Some(30), Some(50_000), false), Op::Await { call: 0 }, get(1)], vec![adv(7000), Op::Tick]]),
+            mk("ilv: k:upsert(remove-ttl);get || {clock+7s;tick} (k not yet expired at the tick's shard)", vec![put_ttl(1, 30, 9000)], vec![vec![ups(true, Some(30), None, true), get(1)], vec![adv(7000), Op::Tick]]),
+            mk("ilv: k:get;get || {clock+3s;tick} sweeping b (k has a later deadline in the same shard)", vec![put_ttl(1, 30, 9000), put_ttl(2, 30, 1000)], vec![vec![get(1), get(1)], vec![adv(3000), Op::Tick]]),
+        ];
+        for p in programs {
+            let nthreads = p.threads.len();
+            scenarios.push(crate::harness::ilv::program_scenario(p, crate::props::c03::ilv_oracle(), move |c| crate::harness::ilv::tier_cfg(c, nthreads)));
+        }
+    }
     let mut assumptions = COMMON_ASSUMPTIONS.to_vec();
     assumptions.push("monotone harness clock; the instant now == expiry is left unspecified; no memory pressure (W = 10000)");
     PropertyDef {
         id: "C09",
-        technique: "explicit-state model checking of the real code: breadth-first search over operation sequences with canonical-state deduplication; every transition re-executed on a fresh cache (default schedule, quiescence after every step)",
+        technique: "explicit-state model checking of the real code: breadth-first search over operation sequences with canonical-state deduplication; every transition re-executed on a fresh cache (default schedule, quiescence after every step); plus stateless preemption-bounded model checking of TTL changes and reads racing the sweeper",
         rule: "seq: all histories over the alphabet up to the depth, deduplicated by canonical state (store entries with ids ranked, charged weights, expiry index, clock); distinct_nontrivial = canonical states first reached at depth >= 2",
         assumptions,
         scenarios,
